@@ -142,24 +142,27 @@ func sameMultiset(a, b []string) bool {
 // Hand: one execution of the engine under monitors
 
 type TraceStep struct {
-	Op  Op     `json:"op"`
-	Err string `json:"err,omitempty"`
+	Op   Op     `json:"op"`
+	Err  string `json:"err,omitempty"`
+	Kind string `json:"kind,omitempty"` // "" driver step | noise (unexpected operation, must be refused) | reload (state reloaded into the same game object) | probe (made by a monitor)
 }
 
 type Hand struct {
-	Prop      string
-	C         *Cfg
-	G         pokerface.Game
-	R         *rand.Rand
-	Rep       *Report
-	Trace     []TraceStep
-	Seed      int64
-	CaseIdx   int
-	Aborted   bool     // a violation was reported: stop the hand to avoid cascades
-	Shuffled  []string // deck as the engine's own shuffle left it (before pinning)
-	Scripted  []Op     // if non-empty: actions to take (RoundStarted) instead of the strategy
-	scriptPos int
-	Replaying bool
+	Prop        string
+	C           *Cfg
+	G           pokerface.Game
+	R           *rand.Rand
+	Rep         *Report
+	Trace       []TraceStep
+	Seed        int64
+	CaseIdx     int
+	Aborted     bool     // a violation was reported: stop the hand to avoid cascades
+	Shuffled    []string // deck as the engine's own shuffle left it (before pinning)
+	Scripted    []Op     // if non-empty: actions to take (RoundStarted) instead of the strategy
+	scriptPos   int
+	Replaying   bool
+	ReplayTrace []TraceStep // replay: execute exactly these steps (probe steps are re-made by the monitor)
+	replayPos   int
 }
 
 func (h *Hand) caseJSON() interface{} {
@@ -262,31 +265,60 @@ func playHand(h *Hand, mon Monitor) {
 			return
 		}
 		var op Op
-		switch ev {
-		case "ReadyRequested", "AnteRequested", "BlindsRequested", "RoundClosed":
-			op = Op{Name: expectedTableOp(ev), Seat: -1}
-		case "RoundStarted":
-			cur := s.Status.CurrentPlayer
-			if cur < 0 || cur >= len(s.Players) || len(s.Players[cur].AllowedActions) == 0 {
-				mon.Stuck(h, fmt.Sprintf("no-actions: RoundStarted with current player %d offered nothing", cur))
+		kind := ""
+		if h.ReplayTrace != nil {
+			for h.replayPos < len(h.ReplayTrace) && h.ReplayTrace[h.replayPos].Kind == "probe" {
+				h.replayPos++
+			}
+			if h.replayPos >= len(h.ReplayTrace) {
 				return
 			}
-			if h.scriptPos < len(h.Scripted) {
-				op = h.Scripted[h.scriptPos]
-				h.scriptPos++
-			} else if len(h.Scripted) > 0 && h.Replaying {
-				return // replay script exhausted
-			} else if refusals >= 3 {
-				op = fallbackAction(s)
-			} else {
-				op = chooseAction(h.R, s, c)
+			op, kind = h.ReplayTrace[h.replayPos].Op, h.ReplayTrace[h.replayPos].Kind
+			h.replayPos++
+		} else {
+			switch ev {
+			case "ReadyRequested", "AnteRequested", "BlindsRequested", "RoundClosed":
+				op = Op{Name: expectedTableOp(ev), Seat: -1}
+			case "RoundStarted":
+				cur := s.Status.CurrentPlayer
+				if cur < 0 || cur >= len(s.Players) || len(s.Players[cur].AllowedActions) == 0 {
+					mon.Stuck(h, fmt.Sprintf("no-actions: RoundStarted with current player %d offered nothing", cur))
+					return
+				}
+				if h.scriptPos < len(h.Scripted) {
+					op = h.Scripted[h.scriptPos]
+					h.scriptPos++
+				} else if refusals >= 3 {
+					op = fallbackAction(s)
+				} else {
+					op = chooseAction(h.R, s, c)
+				}
+			default:
+				mon.Stuck(h, "not-a-wait-point: "+ev)
+				return
 			}
-		default:
-			mon.Stuck(h, "not-a-wait-point: "+ev)
-			return
+			// hostile histories: now and then the state is reloaded into the same game object (a table
+			// rolling back), or an operation that is not the expected one is tried first (must be refused)
+			if c.Noise && h.scriptPos >= len(h.Scripted) {
+				switch h.R.Intn(24) {
+				case 0:
+					op, kind = Op{Name: "reload", Seat: -1}, "reload"
+				case 1, 2:
+					op, kind = noiseOp(h.R, ev), "noise"
+				}
+			}
+		}
+		if kind == "reload" {
+			h.Trace = append(h.Trace, TraceStep{Op: op, Kind: kind})
+			if err := g.LoadState(cloneGS(s)); err != nil {
+				mon.Stuck(h, "reload-refused: "+err.Error())
+				return
+			}
+			h.Rep.Inc("in_place_reloads")
+			continue
 		}
 		pre := cloneGS(s)
-		h.Trace = append(h.Trace, TraceStep{Op: op})
+		h.Trace = append(h.Trace, TraceStep{Op: op, Kind: kind})
 		err := applyOp(g, op)
 		if err != nil {
 			h.Trace[len(h.Trace)-1].Err = err.Error()
@@ -295,6 +327,10 @@ func playHand(h *Hand, mon Monitor) {
 		mon.After(h, pre, op, err, g.GetState())
 		if h.Aborted {
 			return
+		}
+		if kind == "noise" {
+			h.Rep.Inc("unexpected_operations_tried")
+			continue // refused (or, on a broken tree, accepted): the loop looks at the state again
 		}
 		if err != nil {
 			if op.Name == "bet" || op.Name == "raise" {
@@ -322,6 +358,9 @@ func firstLines(s string, n int) string {
 func scriptFromTrace(tr []TraceStep) []Op {
 	ops := []Op{}
 	for _, t := range tr {
+		if t.Kind != "" {
+			continue
+		}
 		switch t.Op.Name {
 		case "ready", "ante", "blinds", "next":
 			continue
@@ -359,4 +398,21 @@ func traceKey(h *Hand) string {
 		fmt.Fprintf(&sb, "%s:%d:%d;", t.Op.Name, t.Op.Seat, t.Op.Amt)
 	}
 	return sb.String()
+}
+
+// noiseOp: an operation that is not the one the hand is waiting for (always through the Game-level
+// methods, so that the stateless backend can be asked the same thing)
+func noiseOp(r *rand.Rand, ev string) Op {
+	var cands []Op
+	for _, t := range []struct{ ev, op string }{{"ReadyRequested", "ready"}, {"AnteRequested", "ante"}, {"BlindsRequested", "blinds"}, {"RoundClosed", "next"}} {
+		if ev != t.ev {
+			cands = append(cands, Op{Name: t.op, Seat: -1})
+		}
+	}
+	if ev != "RoundStarted" {
+		for _, a := range []string{"pass", "fold", "check", "call", "allin", "bet", "raise"} {
+			cands = append(cands, Op{Name: a, Seat: -1, Amt: 10 + int64(r.Intn(90))})
+		}
+	}
+	return cands[r.Intn(len(cands))]
 }
